@@ -175,12 +175,649 @@ Proof.
 Qed.
 
 (* ---------- Part 1: the hypotheses are satisfiable ---------- *)
+(* the two supply orders: hypotheses hold, both event-level runs succeed with the same schema,
+   and the two trees are different *)
 Example ex_ev_order :
   [u_d1; u_d2] <> [] /\ Forall (Forall wf_node) [u_d1; u_d2]
   /\ Forall (fun p => elem_names p = [s "a"]) [u_d1; u_d2]
   /\ Permutation [u_d1; u_d2] [u_d2; u_d1]
-  /\ run_evs (map events_of_forest [u_d1; u_d2]) <> run_evs (map events_of_forest [u_d2; u_d1]).
+  /\ run_evs (map events_of_forest [u_d1; u_d2]) <> run_evs (map events_of_forest [u_d2; u_d1])
+  /\ exists e e', run_evs (map events_of_forest [u_d1; u_d2]) = Ok e
+                  /\ run_evs (map events_of_forest [u_d2; u_d1]) = Ok e' /\ same_schema e e'.
 Proof.
-  split; [discriminate|]. split; [repeat constructor; vm_compute; intuition discriminate|].
-  split; [repeat constructor|]. split; [apply perm_swap|]. vm_compute. discriminate.
+  destruct u_hyps12 as (H1 & H2 & H3).
+  split; [exact H1|]. split; [exact H2|]. split; [exact H3|]. split; [apply perm_swap|].
+  split; [vm_compute; discriminate|].
+  apply (ev_order [u_d1; u_d2] [u_d2; u_d1] (s "a") H1 H2 H3). apply perm_swap.
 Qed.
+
+Example ex_ev_idem_mono :
+  (exists e e', run_evs (map events_of_forest [u_d1; u_d2]) = Ok e
+                /\ run_evs (map events_of_forest ([u_d1; u_d2] ++ [u_d1])) = Ok e'
+                /\ same_schema e e')
+  /\ (exists e e', run_evs (map events_of_forest [u_d1]) = Ok e
+                   /\ run_evs (map events_of_forest ([u_d1] ++ [u_d2])) = Ok e'
+                   /\ le_schema e e').
+Proof.
+  destruct u_hyps12 as (H1 & H2 & H3). split.
+  - apply (ev_idem [u_d1; u_d2] u_d1 (s "a") H1 H2 H3). now left.
+  - apply (ev_monotone [u_d1] [u_d2] (s "a")); [discriminate|exact H2|exact H3].
+Qed.
+
+(* C01: the documents of AdmitProofs.v; the event-level hypothesis holds and every document is admitted *)
+Example ex_ev_admits :
+  exists e, run_evs (map events_of_forest ex_docs) = Ok e
+            /\ clash_free_tree e = true /\ names_plain e = true
+            /\ forall d, In d ex_docs ->
+                 admits_b quick_xml_de (map erase (render_abs quick_xml_de e)) d = true.
+Proof.
+  destruct ex_hypotheses as (H1 & H2 & H3 & e & He & Hc & Hp).
+  exists e. apply run_evs_of_dom in He. repeat split; auto.
+  exact (ev_render_admits_quick_xml ex_docs (s "r") e H1 H2 H3 He Hc Hp).
+Qed.
+
+(* C02: the documents of DeserProofs.v *)
+Example ex_ev_accepts :
+  exists e, run_evs (map events_of_forest (map (map erase_v) vx_docs)) = Ok e
+            /\ forall deny vd, In vd vx_docs ->
+                 exists v, de_doc qx_flavour (render_abs quick_xml_de e) deny vd = Some v.
+Proof.
+  destruct vx_hypotheses as (H1 & H2 & H3 & H4 & e & He & Hc & Hp).
+  exists e. apply run_evs_of_dom in He. split; [exact He|].
+  exact (ev_accepts vx_docs (s "r") e H1 H2 H3 He Hc Hp H4).
+Qed.
+
+(* C11: two different document lists with pairwise the same structure (text vs CDATA, comments,
+   prolog, `<b/>` vs `<b></b>`, position of the character data); different event streams, same
+   event-level result, which is a tree *)
+Definition sx_docs : list (list node) :=
+  [ [NMisc; NElem (s "a") false [s "k"]
+              [NText; NElem (s "b") true [] []; NMisc; NElem (s "b") false [s "x"] [NCData]]];
+    [NElem (s "a") true [] []; NMisc] ].
+Definition sx_docs' : list (list node) :=
+  [ [NElem (s "a") false [s "k"]
+       [NMisc; NElem (s "b") false [] []; NElem (s "b") false [s "x"] [NText; NMisc]; NCData; NText]; NMisc];
+    [NMisc; NMisc; NElem (s "a") false [] [NMisc]] ].
+
+Example ex_ev_structure_only :
+  map events_of_forest sx_docs <> map events_of_forest sx_docs'
+  /\ Forall2 same_structure sx_docs sx_docs'
+  /\ run_evs (map events_of_forest sx_docs) = run_evs (map events_of_forest sx_docs')
+  /\ exists e, run_evs (map events_of_forest sx_docs) = Ok e /\ ecount e = 2.
+Proof.
+  split; [vm_compute; discriminate|].
+  assert (H : Forall2 same_structure sx_docs sx_docs').
+  { repeat constructor; vm_compute; reflexivity. }
+  split; [exact H|]. split; [exact (ev_structure_only _ _ H)|].
+  eexists. split; vm_compute; reflexivity.
+Qed.
+
+(* the premise is needed: a child more is a different structure and a different result *)
+Example ex_ev_structure_needed :
+  let d  := [[NElem (s "a") false [] [NElem (s "b") true [] []]]] in
+  let d' := [[NElem (s "a") false [] []]] in
+  ~ Forall2 same_structure d d'
+  /\ run_evs (map events_of_forest d) <> run_evs (map events_of_forest d').
+Proof.
+  cbv zeta. split.
+  - intros H. inversion H as [|x y l l' Hxy Hl]; subst. vm_compute in Hxy. discriminate Hxy.
+  - vm_compute. discriminate.
+Qed.
+
+Lemma same_structure_unfold d d' :
+  same_structure d d' <-> skel_forest (map unempty d) = skel_forest (map unempty d').
+Proof. reflexivity. Qed.
+
+(* ====================================================================== *)
+(* ---------- Part 2. recursion depth ---------- *)
+
+(* the outcome of build_struct without the tree: what is left of the stream, or the error *)
+Definition proj_rest (o : outcome (element * list event)) : outcome (list event) :=
+  match o with Ok (_, r) => Ok r | Err e => Err e | OutOfFuel => OutOfFuel end.
+
+(* The recursion of build_struct, instrumented.  `d` is the number of calls active when this
+   call runs, itself included.  The content of an EStart is read by a new call (d + 1 active);
+   the events after it (siblings) are handled by the same call: in the model that is the second,
+   tail, call of build_struct on `rest'`, in the Rust code the `loop` of build_struct.
+   Result: the maximal number of simultaneously active calls reached, and the outcome. *)
+Fixpoint build_depth (fuel : nat) (evs : list event) (d : nat) {struct fuel}
+  : nat * outcome (list event) :=
+  match fuel with
+  | O => (d, OutOfFuel)
+  | S fuel' =>
+      match evs with
+      | [] => (d, Ok [])
+      | ev :: rest =>
+          let tag (n : res str) (attrs : list attr_res) (empty : bool) :=
+            match n with
+            | RBad id => (d, Err (FromUtf8Error id))
+            | ROk _ =>
+                match attr_keys attrs with
+                | inl e => (d, Err e)
+                | inr _ =>
+                    if empty then build_depth fuel' rest d
+                    else match build_depth fuel' rest (S d) with
+                         | (m1, Ok rest') =>
+                             let (m2, o) := build_depth fuel' rest' d in (Nat.max m1 m2, o)
+                         | (m1, Err e) => (m1, Err e)
+                         | (m1, OutOfFuel) => (m1, OutOfFuel)
+                         end
+                end
+            end in
+          match ev with
+          | EStart n attrs => tag n attrs false
+          | EEmpty n attrs => tag n attrs true
+          | EEnd => (d, Ok rest)
+          | EText (ROk _) | ECData (ROk _) => build_depth fuel' rest d
+          | EText (RBad id) | ECData (RBad id) => (d, Err (FromUtf8Error id))
+          | EMisc => build_depth fuel' rest d
+          | EErr p id => (d, Err (QuickXmlError p id))
+          end
+      end
+  end.
+
+(* running number of open elements, from `cur`: the maximum reached over the stream *)
+Fixpoint max_open_from (cur : nat) (evs : list event) : nat :=
+  match evs with
+  | [] => cur
+  | EStart _ _ :: r => max_open_from (S cur) r
+  | EEnd :: r => Nat.max cur (max_open_from (Nat.pred cur) r)
+  | _ :: r => max_open_from cur r
+  end.
+Definition max_open (evs : list event) : nat := max_open_from 0 evs.
+
+(* the call depth of build_struct on a stream, as the entry points call it *)
+Definition call_depth (evs : list event) : nat := fst (build_depth (fuel_for evs) evs 1).
+
+(* ---------- the unfolded step ---------- *)
+Definition depth_tag (fuel' : nat) (rest : list event) (d : nat)
+           (n : res str) (attrs : list attr_res) (empty : bool) : nat * outcome (list event) :=
+  match n with
+  | RBad id => (d, Err (FromUtf8Error id))
+  | ROk _ =>
+      match attr_keys attrs with
+      | inl e => (d, Err e)
+      | inr _ =>
+          if empty then build_depth fuel' rest d
+          else match build_depth fuel' rest (S d) with
+               | (m1, Ok rest') =>
+                   let (m2, o) := build_depth fuel' rest' d in (Nat.max m1 m2, o)
+               | (m1, Err e) => (m1, Err e)
+               | (m1, OutOfFuel) => (m1, OutOfFuel)
+               end
+      end
+  end.
+
+Lemma build_depth_S f evs d :
+  build_depth (S f) evs d =
+  match evs with
+  | [] => (d, Ok [])
+  | ev :: rest =>
+      match ev with
+      | EStart n attrs => depth_tag f rest d n attrs false
+      | EEmpty n attrs => depth_tag f rest d n attrs true
+      | EEnd => (d, Ok rest)
+      | EText (ROk _) | ECData (ROk _) => build_depth f rest d
+      | EText (RBad id) | ECData (RBad id) => (d, Err (FromUtf8Error id))
+      | EMisc => build_depth f rest d
+      | EErr p id => (d, Err (QuickXmlError p id))
+      end
+  end.
+Proof.
+  destruct evs as [|ev rest]; [reflexivity|].
+  destruct ev as [n attrs|n attrs| |t|t| |p id]; reflexivity.
+Qed.
+
+(* ---------- the tie: build_depth is the recursion of build_struct ---------- *)
+(* same outcome (Ok with the same remaining events / same error / out of fuel), for every
+   stream, every fuel, every depth and every tree state *)
+Theorem build_depth_tie f : forall evs d root known,
+  snd (build_depth f evs d) = proj_rest (build_struct f evs root known).
+Proof.
+  induction f as [|f IH]; intros evs d root known; [reflexivity|].
+  rewrite build_depth_S, SkelProofs.build_struct_S.
+  destruct evs as [|ev rest]; [reflexivity|].
+  assert (Htag : forall n attrs empty,
+             snd (depth_tag f rest d n attrs empty)
+             = proj_rest (SkelProofs.tag_step f rest root known n attrs empty)).
+  { intros n attrs empty. unfold depth_tag, SkelProofs.tag_step.
+    destruct n as [name|id]; [|reflexivity].
+    destruct (attr_keys attrs) as [e|keys]; [reflexivity|].
+    destruct empty; [apply IH|].
+    pose proof (IH rest (S d) (open_c0 root name keys known) []) as H1.
+    destruct (build_depth f rest (S d)) as [m1 o1].
+    destruct (build_struct f rest (open_c0 root name keys known) []) as [[child rest']|e|];
+      cbn [snd proj_rest] in H1; subst o1; try reflexivity.
+    pose proof (IH rest' d (tag_close (open_root1 root name) name child
+                              (snapshot (get_child (echildren root) name)))
+                   (known_add known name)) as H2.
+    destruct (build_depth f rest' d) as [m2 o2]. exact H2. }
+  destruct ev as [n attrs|n attrs| |t|t| |p id]; try reflexivity.
+  - apply Htag.
+  - apply Htag.
+  - destruct t as [u|id]; [apply IH|reflexivity].
+  - destruct t as [u|id]; [apply IH|reflexivity].
+  - apply IH.
+Qed.
+
+(* the form asked for: build_depth succeeds exactly when build_struct returns Ok, on the same
+   fuel and events, and the remaining events are the same (no hypothesis on the stream) *)
+Corollary build_depth_ok_of_struct f evs d root known r rest :
+  build_struct f evs root known = Ok (r, rest) -> snd (build_depth f evs d) = Ok rest.
+Proof. intros H. now rewrite (build_depth_tie f evs d root known), H. Qed.
+
+Corollary build_struct_ok_of_depth f evs d root known rest :
+  snd (build_depth f evs d) = Ok rest -> exists r, build_struct f evs root known = Ok (r, rest).
+Proof.
+  rewrite (build_depth_tie f evs d root known).
+  destruct (build_struct f evs root known) as [[r rest0]|e|]; cbn [proj_rest]; intros H;
+    try discriminate H.
+  injection H as ->. now exists r.
+Qed.
+
+Corollary build_depth_ok_iff f evs d root known rest :
+  snd (build_depth f evs d) = Ok rest <-> exists r, build_struct f evs root known = Ok (r, rest).
+Proof.
+  split; [apply build_struct_ok_of_depth|]. intros [r H]. eapply build_depth_ok_of_struct; exact H.
+Qed.
+
+Corollary build_depth_err_iff f evs d root known x :
+  snd (build_depth f evs d) = Err x <-> build_struct f evs root known = Err x.
+Proof.
+  rewrite (build_depth_tie f evs d root known).
+  destruct (build_struct f evs root known) as [[r rest0]|e|]; cbn [proj_rest]; split; intros H;
+    try discriminate H; injection H as ->; reflexivity.
+Qed.
+
+(* fault-free streams with the fuel of the entry points: both succeed, same remaining events *)
+Corollary build_depth_faultfree evs d root known :
+  first_fault evs = None ->
+  exists r rest, build_struct (fuel_for evs) evs root known = Ok (r, rest)
+                 /\ snd (build_depth (fuel_for evs) evs d) = Ok rest.
+Proof.
+  intros Hff.
+  destruct (build_struct (fuel_for evs) evs root known) as [[r rest]|x|] eqn:E.
+  - exists r, rest. split; [reflexivity|]. eapply build_depth_ok_of_struct; exact E.
+  - exfalso. pose proof (build_scan (fuel_for evs) evs root known) as Hs.
+    assert (L : (length evs < fuel_for evs)%nat) by (unfold fuel_for; lia).
+    specialize (Hs L). rewrite E in Hs.
+    destruct (scan O evs) as [y|rest1|] eqn:Sc.
+    + now apply (no_fault_scan evs Hff y).
+    + destruct Hs as [e0 Hs]. discriminate Hs.
+    + destruct Hs as [e0 Hs]. discriminate Hs.
+  - exfalso. revert E. apply ParserTotal.fuel_enough. unfold fuel_for. lia.
+Qed.
+
+(* ---------- the bound ---------- *)
+Lemma max_open_from_ge evs : forall c, (c <= max_open_from c evs)%nat.
+Proof.
+  induction evs as [|ev evs IH]; intros c; [cbn; lia|].
+  destruct ev as [n attrs|n attrs| |t|t| |p id]; cbn [max_open_from]; try apply IH.
+  - specialize (IH (S c)). lia.
+  - lia.
+Qed.
+
+Lemma build_depth_ge f : forall evs d, (d <= fst (build_depth f evs d))%nat.
+Proof.
+  induction f as [|f IH]; intros evs d; [cbn; lia|].
+  rewrite build_depth_S. destruct evs as [|ev rest]; [cbn; lia|].
+  assert (Htag : forall n attrs empty, (d <= fst (depth_tag f rest d n attrs empty))%nat).
+  { intros n attrs empty. unfold depth_tag.
+    destruct n as [name|id]; [|cbn; lia].
+    destruct (attr_keys attrs) as [e|keys]; [cbn; lia|].
+    destruct empty; [apply IH|].
+    pose proof (IH rest (S d)) as H1.
+    destruct (build_depth f rest (S d)) as [m1 [rest'|e|]]; cbn [fst] in H1 |- *; try lia.
+    pose proof (IH rest' d) as H2.
+    destruct (build_depth f rest' d) as [m2 o2]. cbn [fst] in H2 |- *. lia. }
+  destruct ev as [n attrs|n attrs| |t|t| |p id]; try apply Htag; try apply IH; try (cbn; lia).
+  - destruct t as [u|id]; [apply IH|cbn; lia].
+  - destruct t as [u|id]; [apply IH|cbn; lia].
+Qed.
+
+(* the invariant: `c` elements are open when the call at depth `d` starts on `evs`.
+   (a) the depth reached exceeds d by no more than the running count exceeds c;
+   (b) when the call returns (end tag or end of stream) the rest of the stream, read from c - 1,
+       does not reach higher than the whole stream read from c. *)
+Lemma depth_inv f : forall evs d c,
+  (fst (build_depth f evs d) + c <= d + max_open_from c evs)%nat
+  /\ forall rest, snd (build_depth f evs d) = Ok rest ->
+       (max_open_from (Nat.pred c) rest <= max_open_from c evs)%nat.
+Proof.
+  induction f as [|f IH]; intros evs d c.
+  - cbn [build_depth fst snd]. pose proof (max_open_from_ge evs c). split; [lia|discriminate].
+  - rewrite build_depth_S. destruct evs as [|ev rest].
+    + cbn [fst snd max_open_from]. split; [lia|]. intros r H. injection H as <-. cbn. lia.
+    + pose proof (max_open_from_ge (ev :: rest) c) as Hge.
+      assert (Hskip : max_open_from c (ev :: rest) = max_open_from c rest ->
+                (fst (build_depth f rest d) + c <= d + max_open_from c (ev :: rest))%nat
+                /\ forall r, snd (build_depth f rest d) = Ok r ->
+                     (max_open_from (Nat.pred c) r <= max_open_from c (ev :: rest))%nat).
+      { intros ->. apply IH. }
+      assert (Herr : forall x,
+                (fst (d, @Err (list event) x) + c <= d + max_open_from c (ev :: rest))%nat
+                /\ forall r, snd (d, @Err (list event) x) = Ok r ->
+                     (max_open_from (Nat.pred c) r <= max_open_from c (ev :: rest))%nat).
+      { intros x. cbn [fst snd]. split; [lia|discriminate]. }
+      destruct ev as [n attrs|n attrs| |t|t| |p id].
+      * (* EStart *)
+        unfold depth_tag. destruct n as [name|id]; [|apply Herr].
+        destruct (attr_keys attrs) as [e|keys]; [apply Herr|].
+        cbn [max_open_from] in Hge |- *.
+        destruct (IH rest (S d) (S c)) as [Ha Hb].
+        destruct (build_depth f rest (S d)) as [m1 [rest'|e|]]; cbn [fst snd] in Ha, Hb |- *.
+        -- specialize (Hb rest' eq_refl). cbn [Nat.pred] in Hb.
+           destruct (IH rest' d c) as [Ha2 Hb2].
+           destruct (build_depth f rest' d) as [m2 o2]. cbn [fst snd] in Ha2, Hb2 |- *.
+           split; [lia|]. intros r Hr. specialize (Hb2 r Hr). lia.
+        -- split; [lia|discriminate].
+        -- split; [lia|discriminate].
+      * (* EEmpty *)
+        unfold depth_tag. destruct n as [name|id]; [|apply Herr].
+        destruct (attr_keys attrs) as [e|keys]; [apply Herr|].
+        now apply Hskip.
+      * (* EEnd *)
+        cbn [fst snd max_open_from]. split; [lia|]. intros r H. injection H as <-. lia.
+      * destruct t as [u|id]; [now apply Hskip|apply Herr].
+      * destruct t as [u|id]; [now apply Hskip|apply Herr].
+      * now apply Hskip.
+      * apply Herr.
+Qed.
+
+(* every stream, balanced or not, faulty or not; every fuel; every starting depth *)
+Theorem depth_bound_gen f evs d : (fst (build_depth f evs d) <= d + max_open evs)%nat.
+Proof. destruct (depth_inv f evs d 0) as [H _]. unfold max_open. lia. Qed.
+
+Theorem depth_bound evs : (call_depth evs <= 1 + max_open evs)%nat.
+Proof. apply depth_bound_gen. Qed.
+
+Corollary depth_bound_200 evs : (max_open evs <= 200)%nat -> (call_depth evs <= 201)%nat.
+Proof. intros H. pose proof (depth_bound evs). lia. Qed.
+
+Corollary depth_bound_limit evs k : (max_open evs <= k)%nat -> (call_depth evs <= S k)%nat.
+Proof. intros H. pose proof (depth_bound evs). lia. Qed.
+
+(* ---------- enough fuel: the measure does not depend on the amount ---------- *)
+Lemma build_depth_rest_length f evs d rest :
+  snd (build_depth f evs d) = Ok rest -> (length rest <= length evs)%nat.
+Proof.
+  intros H. destruct (build_struct_ok_of_depth f evs d wrapper [] rest H) as [r Hr].
+  now apply build_struct_rest_length in Hr.
+Qed.
+
+Lemma build_depth_fuel f1 : forall f2 evs d,
+  (length evs < f1)%nat -> (length evs < f2)%nat -> build_depth f1 evs d = build_depth f2 evs d.
+Proof.
+  induction f1 as [|f1 IH]; intros f2 evs d H1 H2; [lia|].
+  destruct f2 as [|f2]; [lia|]. rewrite !build_depth_S.
+  destruct evs as [|ev evs]; [reflexivity|]. cbn [length] in H1, H2.
+  assert (Htag : forall n attrs empty,
+             depth_tag f1 evs d n attrs empty = depth_tag f2 evs d n attrs empty).
+  { intros n attrs empty. unfold depth_tag.
+    destruct n as [name|id]; [|reflexivity].
+    destruct (attr_keys attrs) as [e|keys]; [reflexivity|].
+    destruct empty; [apply IH; lia|].
+    rewrite (IH f2 evs (S d)) by lia.
+    destruct (build_depth f2 evs (S d)) as [m1 [rest'|e|]] eqn:Hs; try reflexivity.
+    assert (Hl : (length rest' <= length evs)%nat).
+    { apply (build_depth_rest_length f2 evs (S d)). now rewrite Hs. }
+    rewrite (IH f2 rest' d) by lia. reflexivity. }
+  destruct ev as [n attrs|n attrs| |t|t| |p id]; auto.
+  - destruct t as [u|id]; [|reflexivity]. apply IH; lia.
+  - destruct t as [u|id]; [|reflexivity]. apply IH; lia.
+  - apply IH; lia.
+Qed.
+
+(* with the fuel of the entry points the instrumented recursion never runs out either *)
+Lemma build_depth_fuel_enough f evs d :
+  (length evs < f)%nat -> snd (build_depth f evs d) <> OutOfFuel.
+Proof.
+  intros L H. rewrite (build_depth_tie f evs d wrapper []) in H.
+  pose proof (ParserTotal.fuel_enough f evs wrapper [] L) as Hne.
+  destruct (build_struct f evs wrapper []) as [[r rest]|e|]; cbn [proj_rest] in H;
+    try discriminate H. now apply Hne.
+Qed.
+
+(* ---------- document trees: the bound is reached ---------- *)
+(* nesting depth of the start-tag elements of a node (an `<x/>` has no content to recurse into) *)
+Fixpoint nest (nd : node) : nat :=
+  match nd with
+  | NElem _ false _ kids =>
+      S ((fix go (ks : list node) : nat :=
+            match ks with [] => O | k :: r => Nat.max (nest k) (go r) end) kids)
+  | _ => O
+  end.
+Fixpoint nest_forest (ks : list node) : nat :=
+  match ks with [] => O | k :: r => Nat.max (nest k) (nest_forest r) end.
+
+Lemma nest_elem n a ks : nest (NElem n false a ks) = S (nest_forest ks).
+Proof. reflexivity. Qed.
+
+Definition bump (x : nat) (r : nat * outcome (list event)) : nat * outcome (list event) :=
+  (Nat.max x (fst r), snd r).
+
+Definition node_depth_ok (k : node) : Prop :=
+  forall rest f d, (length (events_of k ++ rest) < f)%nat ->
+    build_depth f (events_of k ++ rest) d = bump (d + nest k) (build_depth f rest d).
+Definition forest_depth_ok (ks : list node) : Prop :=
+  forall rest f d, (length (events_of_forest ks ++ rest) < f)%nat ->
+    build_depth f (events_of_forest ks ++ rest) d = bump (d + nest_forest ks) (build_depth f rest d).
+
+Lemma bump_ge x r : (x <= fst r)%nat -> bump x r = r.
+Proof. destruct r as [m o]. unfold bump. cbn [fst snd]. intros H. f_equal. lia. Qed.
+
+Lemma forest_depth_ok_of_Forall ks : Forall node_depth_ok ks -> forest_depth_ok ks.
+Proof.
+  induction 1 as [|k ks Hk Hks IH]; intros rest f d Hlen.
+  - cbn [events_of_forest flat_map app nest_forest]. rewrite bump_ge; [reflexivity|].
+    rewrite Nat.add_0_r. apply build_depth_ge.
+  - rewrite events_of_forest_cons, <- app_assoc in Hlen |- *.
+    rewrite Hk by exact Hlen. rewrite IH by (rewrite app_length in Hlen; lia).
+    unfold bump. cbn [fst snd nest_forest]. f_equal. lia.
+Qed.
+
+Lemma node_depth_all : forall k, node_depth_ok k.
+Proof.
+  induction k as [n ef a ks IH| | |] using node_ind'; intros rest f d Hlen.
+  - apply forest_depth_ok_of_Forall in IH.
+    destruct f as [|f]; [lia|].
+    destruct ef.
+    + rewrite events_of_empty in Hlen |- *. cbn [app length] in Hlen |- *.
+      rewrite build_depth_S. unfold depth_tag. rewrite attr_keys_ok.
+      cbn [nest]. rewrite bump_ge by (rewrite Nat.add_0_r; apply build_depth_ge).
+      apply build_depth_fuel; lia.
+    + rewrite events_of_elem in Hlen |- *.
+      rewrite <- app_comm_cons, <- app_assoc in Hlen |- *. cbn [length] in Hlen.
+      rewrite build_depth_S. unfold depth_tag. rewrite attr_keys_ok.
+      rewrite IH by lia.
+      destruct f as [|f']; [lia|].
+      rewrite (build_depth_S f' ([EEnd] ++ rest)). cbn [app]. unfold bump at 1. cbn [fst snd].
+      rewrite (build_depth_fuel (S f') (S (S f')) rest d)
+        by (rewrite !app_length in Hlen; cbn [length] in Hlen; lia).
+      destruct (build_depth (S (S f')) rest d) as [m2 o2]. unfold bump. cbn [fst snd].
+      rewrite nest_elem. f_equal. lia.
+  - destruct f as [|f]; [lia|]. cbn [events_of app length nest] in Hlen |- *.
+    rewrite build_depth_S. rewrite bump_ge by (rewrite Nat.add_0_r; apply build_depth_ge).
+    apply build_depth_fuel; lia.
+  - destruct f as [|f]; [lia|]. cbn [events_of app length nest] in Hlen |- *.
+    rewrite build_depth_S. rewrite bump_ge by (rewrite Nat.add_0_r; apply build_depth_ge).
+    apply build_depth_fuel; lia.
+  - destruct f as [|f]; [lia|]. cbn [events_of app length nest] in Hlen |- *.
+    rewrite build_depth_S. rewrite bump_ge by (rewrite Nat.add_0_r; apply build_depth_ge).
+    apply build_depth_fuel; lia.
+Qed.
+
+(* a document (forest of top-level nodes), any continuation *)
+Theorem build_depth_forest ks rest f d :
+  (length (events_of_forest ks ++ rest) < f)%nat ->
+  build_depth f (events_of_forest ks ++ rest) d = bump (d + nest_forest ks) (build_depth f rest d).
+Proof.
+  revert rest f d. apply forest_depth_ok_of_Forall. apply Forall_forall. intros k _. apply node_depth_all.
+Qed.
+
+Theorem build_depth_dom ks f d :
+  (length (events_of_forest ks) < f)%nat ->
+  build_depth f (events_of_forest ks) d = (d + nest_forest ks, Ok [])%nat.
+Proof.
+  intros Hlen. pose proof (build_depth_forest ks [] f d) as H. rewrite app_nil_r in H.
+  rewrite H by exact Hlen. destruct f as [|f]; [lia|]. rewrite build_depth_S.
+  unfold bump. cbn [fst snd]. f_equal. lia.
+Qed.
+
+(* the stream of a document opens exactly `nest` elements at once *)
+Lemma max_open_from_forest_aux ks :
+  Forall (fun k => forall rest c, max_open_from c (events_of k ++ rest)
+                                  = Nat.max (c + nest k) (max_open_from c rest)) ks ->
+  forall rest c, max_open_from c (events_of_forest ks ++ rest)
+                 = Nat.max (c + nest_forest ks) (max_open_from c rest).
+Proof.
+  induction 1 as [|k ks Hk Hks IH]; intros rest c.
+  - cbn [events_of_forest flat_map app nest_forest].
+    pose proof (max_open_from_ge rest c). lia.
+  - rewrite events_of_forest_cons, <- app_assoc, Hk, IH. cbn [nest_forest]. lia.
+Qed.
+
+Lemma max_open_from_node : forall k rest c,
+  max_open_from c (events_of k ++ rest) = Nat.max (c + nest k) (max_open_from c rest).
+Proof.
+  induction k as [n ef a ks IH| | |] using node_ind'; intros rest c.
+  - destruct ef.
+    + rewrite events_of_empty. cbn [app max_open_from nest].
+      pose proof (max_open_from_ge rest c). lia.
+    + rewrite events_of_elem, nest_elem. rewrite <- app_comm_cons, <- app_assoc.
+      cbn [max_open_from].
+      rewrite (max_open_from_forest_aux ks IH). cbn [app max_open_from Nat.pred].
+      pose proof (max_open_from_ge rest c). lia.
+  - cbn [events_of app max_open_from nest]. pose proof (max_open_from_ge rest c). lia.
+  - cbn [events_of app max_open_from nest]. pose proof (max_open_from_ge rest c). lia.
+  - cbn [events_of app max_open_from nest]. pose proof (max_open_from_ge rest c). lia.
+Qed.
+
+Lemma max_open_from_forest ks rest c :
+  max_open_from c (events_of_forest ks ++ rest)
+  = Nat.max (c + nest_forest ks) (max_open_from c rest).
+Proof.
+  apply max_open_from_forest_aux. apply Forall_forall. intros k _. apply max_open_from_node.
+Qed.
+
+Lemma max_open_forest ks : max_open (events_of_forest ks) = nest_forest ks.
+Proof.
+  unfold max_open. pose proof (max_open_from_forest ks [] 0) as H. rewrite app_nil_r in H.
+  rewrite H. cbn [max_open_from]. lia.
+Qed.
+
+(* on the events of a document the call depth is exactly 1 + nesting depth = 1 + max_open *)
+Theorem call_depth_dom ks : call_depth (events_of_forest ks) = S (nest_forest ks).
+Proof.
+  unfold call_depth, fuel_for. rewrite build_depth_dom by lia. reflexivity.
+Qed.
+
+Theorem call_depth_dom_max_open ks :
+  call_depth (events_of_forest ks) = S (max_open (events_of_forest ks)).
+Proof. now rewrite call_depth_dom, max_open_forest. Qed.
+
+(* ---------- Part 2: examples ---------- *)
+(* <a><a><a><a><a>..</a></a></a></a></a> as a stream, k deep *)
+Fixpoint nested_evs (k : nat) (inner : list event) : list event :=
+  match k with
+  | O => inner
+  | S k' => EStart (ROk (s "a")) [] :: nested_evs k' inner ++ [EEnd]
+  end.
+
+(* a stream nested 5 deep: 5 open elements at once, 6 active calls; the instrumented recursion
+   and build_struct both consume everything *)
+Example ex_depth_5 :
+  let evs := nested_evs 5 [EText (ROk tt); EEmpty (ROk (s "b")) []] in
+  max_open evs = 5%nat /\ call_depth evs = 6%nat
+  /\ build_depth (fuel_for evs) evs 1 = (6%nat, Ok [])
+  /\ proj_rest (build_struct (fuel_for evs) evs wrapper []) = Ok [].
+Proof. cbv zeta. repeat split; vm_compute; reflexivity. Qed.
+
+(* siblings do not add to the depth: 3 siblings, each 2 deep, with empty elements in between *)
+Example ex_depth_siblings :
+  let one := nested_evs 2 [EEmpty (ROk (s "b")) []] in
+  let evs := EStart (ROk (s "r")) [] :: one ++ EMisc :: one ++ one ++ [EEnd] in
+  max_open evs = 3%nat /\ call_depth evs = 4%nat /\ length evs = 18%nat.
+Proof. cbv zeta. repeat split; vm_compute; reflexivity. Qed.
+
+(* unbalanced streams.  Missing end tags (Eof inside 3 open elements): depth 4.  A stray end tag
+   makes the top call return: what follows it is not read, and the bound is not reached
+   (max_open counts the whole stream: 2, depth 2 <= 3). *)
+Example ex_depth_unbalanced :
+  let open3 := [EStart (ROk (s "a")) []; EStart (ROk (s "b")) []; EStart (ROk (s "c")) []] in
+  let stray := [EStart (ROk (s "a")) []; EEnd; EEnd; EStart (ROk (s "b")) []; EStart (ROk (s "c")) []] in
+  (max_open open3 = 3%nat /\ build_depth (fuel_for open3) open3 1 = (4%nat, Ok []))
+  /\ (max_open stray = 2%nat
+      /\ build_depth (fuel_for stray) stray 1
+         = (2%nat, Ok [EStart (ROk (s "b")) []; EStart (ROk (s "c")) []])
+      /\ proj_rest (build_struct (fuel_for stray) stray wrapper [])
+         = Ok [EStart (ROk (s "b")) []; EStart (ROk (s "c")) []]).
+Proof. cbv zeta. repeat split; vm_compute; reflexivity. Qed.
+
+(* a faulty stream: the reader error arrives 2 elements deep; depth 3, same error on both sides *)
+Example ex_depth_fault :
+  let evs := [EStart (ROk (s "a")) []; EStart (ROk (s "b")) []; EErr 7 3; EEnd; EEnd] in
+  max_open evs = 2%nat
+  /\ build_depth (fuel_for evs) evs 1 = (3%nat, Err (QuickXmlError 7 3))
+  /\ build_struct (fuel_for evs) evs wrapper [] = Err (QuickXmlError 7 3).
+Proof. cbv zeta. repeat split; vm_compute; reflexivity. Qed.
+
+(* a document tree nested 5 deep (ex_doc of DomEquiv.v is 2 deep) *)
+Fixpoint nested_doc (k : nat) : node :=
+  match k with
+  | O => NText
+  | S k' => NElem (s "a") false [s "x"] [NElem (s "b") true [] []; nested_doc k'; NMisc]
+  end.
+Example ex_depth_dom :
+  nest_forest [NMisc; nested_doc 5] = 5%nat
+  /\ call_depth (events_of_forest [NMisc; nested_doc 5]) = 6%nat
+  /\ max_open (events_of_forest [NMisc; nested_doc 5]) = 5%nat
+  /\ call_depth (events_of_forest ex_doc) = 3%nat.
+Proof. repeat split; vm_compute; reflexivity. Qed.
+
+(* the 200 bound is not vacuous: a stream nested exactly 200 deep has 201 active calls *)
+Example ex_depth_200 :
+  let evs := nested_evs 200 [] in
+  max_open evs = 200%nat /\ call_depth evs = 201%nat.
+Proof. cbv zeta. split; vm_compute; reflexivity. Qed.
+
+(* ---------- the definitions, unfolded (for the Properties file) ---------- *)
+Lemma depth_tag_unfold f rest d n attrs empty :
+  depth_tag f rest d n attrs empty =
+  match n with
+  | RBad id => (d, Err (FromUtf8Error id))
+  | ROk _ =>
+      match attr_keys attrs with
+      | inl e => (d, Err e)
+      | inr _ =>
+          if empty then build_depth f rest d
+          else match build_depth f rest (S d) with
+               | (m1, Ok rest') =>
+                   let (m2, o) := build_depth f rest' d in (Nat.max m1 m2, o)
+               | (m1, Err e) => (m1, Err e)
+               | (m1, OutOfFuel) => (m1, OutOfFuel)
+               end
+      end
+  end.
+Proof. reflexivity. Qed.
+
+Lemma max_open_from_unfold cur evs :
+  max_open_from cur evs =
+  match evs with
+  | [] => cur
+  | EStart _ _ :: r => max_open_from (S cur) r
+  | EEnd :: r => Nat.max cur (max_open_from (Nat.pred cur) r)
+  | _ :: r => max_open_from cur r
+  end.
+Proof. destruct evs as [|[]]; reflexivity. Qed.
+
+Lemma call_depth_unfold evs :
+  call_depth evs = fst (build_depth (fuel_for evs) evs 1) /\ max_open evs = max_open_from 0 evs.
+Proof. split; reflexivity. Qed.
+
+Lemma nest_unfold n a ks :
+  nest (NElem n false a ks) = S (nest_forest ks) /\ nest (NElem n true a ks) = O
+  /\ nest NText = O /\ nest NCData = O /\ nest NMisc = O
+  /\ nest_forest [] = O
+  /\ forall k, nest_forest (k :: ks) = Nat.max (nest k) (nest_forest ks).
+Proof. repeat split. Qed.
